@@ -12,8 +12,8 @@ CONSTANT Dense       \* TRUE iff the embedding maps offsets 0..NR to consecutive
 Rec == ndJsonDeserialize(IOEnv.TRACE)
 N   == Len(Rec)
 
-VARIABLES l, bad, cnt
-tvars == <<l, bad, cnt>>
+VARIABLES l, bad, cnt, skipped
+tvars == <<l, bad, cnt, skipped>>
 
 NU == (NF+1)*(NR+1)
 NMask == (T+1)*(T+1)
@@ -51,7 +51,7 @@ OK(e) ==
     \* is_empty: TRUE only for empty sets, and TRUE whenever there is no entry at all
     \* (an entry holding an empty bitmap may conservatively answer FALSE)
     [] op = "tm_is_empty" -> (e[3] => SemTM(e[2]) = {}) /\ (NoEntries(e[2]) => e[3])
-    [] op = "tm_iter" -> IF HasFull(e[2]) THEN e[3] = -1
+    [] op = "tm_iter" -> IF HasFull(e[2]) THEN e[3] = <<-1>>
                          ELSE e[3] = SortedIdx(SemTM(e[2]))
     [] op = "tm_ser" -> FromBits(e[3]) = SemTM(e[2]) /\ e[4]
     [] op = "tm_insert" -> /\ FromBits(e[5]) = SemTM(e[2]) \cup {UOf(e[3])}
@@ -75,8 +75,8 @@ OK(e) ==
     [] op = "m_max_len" -> IF AllowOf(e[2]) = -1 \/ HasFull(AllowOf(e[2])) THEN e[3] = -1
                            ELSE e[3] = -1 \/ e[3] >= Cardinality(SelectedC(e[2]))
     \* iter_ids may decline (-1); when it answers it must list exactly the selected rows
-    [] op = "m_iter" -> IF AllowOf(e[2]) = -1 \/ HasFull(AllowOf(e[2])) THEN e[3] = -1
-                        ELSE e[3] = -1 \/ e[3] = SortedIdx(SelectedC(e[2]))
+    [] op = "m_iter" -> IF AllowOf(e[2]) = -1 \/ HasFull(AllowOf(e[2])) THEN e[3] = <<-1>>
+                        ELSE e[3] = <<-1>> \/ e[3] = SortedIdx(SelectedC(e[2]))
     [] op = "m_arrow" -> FromBits(e[3]) = SelectedC(e[2])
     [] op = "m_selidx" -> e[3] = SortedIdx(SelectedC(e[2]))
     [] op = "m_also_allow" -> FromBits(e[4]) = SelectedC(e[2]) \cup
@@ -102,11 +102,13 @@ Ops == {"univ","tm_contains","tm_len","tm_is_empty","tm_iter","tm_ser","tm_inser
         "tm_range","tm_or","tm_and","tm_sub","tm_mask","m_sel","m_not","m_norm","m_max_len",
         "m_iter","m_arrow","m_selidx","m_also_allow","m_also_block","m_and","m_or","ev"}
 
-Init == l = 1 /\ bad = <<>> /\ cnt = [o \in Ops |-> 0]
+Init == l = 1 /\ bad = <<>> /\ cnt = [o \in Ops |-> 0] /\ skipped = <<>>
 Next == /\ l <= N
         /\ l' = l + 1
         /\ LET e == Rec[l] IN
-           /\ bad' = IF e[1] \in Ops /\ OK(e) THEN bad
+           \* the driver's account of sampled-out costly cases is carried into the report
+           /\ skipped' = IF e[1] = "skipped" THEN e[2] ELSE skipped
+           /\ bad' = IF e[1] = "skipped" THEN bad ELSE IF e[1] \in Ops /\ OK(e) THEN bad
                      ELSE IF Len(bad) < 200 THEN Append(bad, <<l, e[1], IF e[1] \in Ops THEN Class(e) ELSE "unknown-op">>)
                      ELSE bad
            /\ cnt' = IF e[1] \in Ops THEN [cnt EXCEPT ![e[1]] = @ + 1] ELSE cnt
@@ -114,7 +116,7 @@ TraceSpec == Init /\ [][Next]_tvars
 
 \* Reported at the end of the run (the state with l = N+1 is the last one).
 Report == (l = N + 1) =>
-            PrintT(<<"REPORT", ToJson([events |-> N, bad |-> bad, counts |-> cnt,
+            PrintT(<<"REPORT", ToJson([events |-> N, bad |-> bad, counts |-> cnt, skipped |-> skipped,
                                          T |-> T, NMask |-> NMask, NU |-> NU])>>)
 TraceAccepted == TLCGet("stats").diameter = N + 1
 =============================================================================
